@@ -471,8 +471,12 @@ def run_check(prop, families, level='model_checking', technique='',
     ev = dict(property_id=prop, tier=tier, seed=seed, level=level,
               coverage=cov, assumptions=list(assumptions),
               wall_s=round(wall, 2), violations=len(viol_reported))
-    os.makedirs(os.path.join(VERIF, 'evidence'), exist_ok=True)
-    json.dump(ev, open(os.path.join(VERIF, 'evidence', '%s.json' % prop), 'w'),
+    # runs against scratch copies of placement (seeded changes, debugging)
+    # must not overwrite the evidence of the tree under /repo
+    evdir = os.environ.get('VERIF_EVIDENCE_DIR') or \
+        os.path.join(VERIF, 'evidence')
+    os.makedirs(evdir, exist_ok=True)
+    json.dump(ev, open(os.path.join(evdir, '%s.json' % prop), 'w'),
               indent=1, default=str)
     print('%s tier=%s families=%d paths=%d obligations=%d/%d queries=%d '
           'solver=%.1fs wall=%.1fs exit=%d'
